@@ -24,7 +24,8 @@ func (c04) Rule() string {
 	return "generated schema (all leaf types, nested lists with single/compound keys, choices, augmenting module) + conforming tree; " +
 		"monitors: (1) export through UpsertInto a write-logging capture store == model tree, each leaf/container/entry exactly once, schema order, " +
 		"entries in source order; (2) WriteJSON parsed as encoding/json token stream == model tree; (3) ReadJSON(WriteJSON(t)) exported again == " +
-		"export of t. A shape = (tree shape fingerprint, source implementation, writer config); trivial = empty tree"
+		"export of t; (1b) every fourth case: the same tree held in Go maps / slices / reflect.StructOf structs and read by nodeutil.Reflect or " +
+		"nodeutil.Node, export and WriteJSON == model tree. A shape = (tree shape fingerprint, source implementation, writer config); trivial = empty tree"
 }
 func (c04) MinEvals(string) int { return 300 }
 
@@ -47,6 +48,13 @@ func c04Gen(c *core.Ctx, idx int) (*dp.Schema, *dp.DNode, bool) {
 		// one leaf type at a time, hostile values
 		o.Types = []string{dp.AllTypes[(idx/7)%len(dp.AllTypes)]}
 	}
+	if gm := c04GoMode(idx); gm != nil {
+		// a schema one of the library's reflection nodes can hold: it becomes a second export source
+		o.Types, o.KeyTypes = dp.GoTypes(*gm), dp.GoKeyTypes(*gm)
+		o.CompoundKeys = gm.Shape == "struct"
+		o.Choices = o.Choices && gm.Shape == "map"
+		o.Aug = false
+	}
 	s := dp.GenSchema(r, o)
 	if err := s.Compile(); err != nil {
 		c.R.Inconclusive = "generated schema does not compile: " + head(err.Error(), 300)
@@ -57,6 +65,15 @@ func c04Gen(c *core.Ctx, idx int) (*dp.Schema, *dp.DNode, bool) {
 	do.MaxEntries = 1 + r.Intn(4)
 	t := dp.GenTree(r, s, do)
 	return s, t, true
+}
+
+// c04GoMode: every fourth case also exports from a reflection node over plain Go values
+func c04GoMode(idx int) *dp.GoMode {
+	if idx%4 != 1 {
+		return nil
+	}
+	m := dp.GoModes[(idx/4)%len(dp.GoModes)]
+	return &m
 }
 
 func head(s string, n int) string {
@@ -110,6 +127,52 @@ func (p c04) Run(c *core.Ctx, idx int) {
 	}
 	if d := dp.Diff(s, t, src.Root, dp.CmpOpts{}); d != "" {
 		c.Violate("export/modified-source", "reading changed the source:\n%s\n%s", d, wit())
+	}
+
+	// (1b) export and JSON from a reflection node over Go values the harness filled itself
+	if gm := c04GoMode(idx); gm != nil && dp.GoSupports(s, *gm) == "" {
+		g := dp.NewGoStore(c.Rand, s, *gm, t.Clone())
+		want := t
+		gcmp := dp.CmpOpts{DefaultsMayAppear: true, IgnoreListOrder: true, EmptyListIsAbsent: true}
+		if gm.Shape == "struct" {
+			// a struct field cannot say "unset": both sides without zero values
+			want = dp.ZeroNormalize(t)
+		}
+		norm := func(d *dp.DNode) *dp.DNode {
+			if gm.Shape == "struct" {
+				return dp.ZeroNormalize(d)
+			}
+			return d
+		}
+		c.Eval()
+		c.Count("source_" + gm.String())
+		var gcapt *dp.Capture
+		if !c.Guard("export from "+gm.String(), func() { gcapt, err = exportTo(c, s, g.Browser().Root()) }) {
+			if err != nil {
+				c.Violate("export/"+gm.String()+"/"+errClassText(err), "export from a %s source failed: %v\nlists: %v\n%s", gm, err, g.Repr, wit())
+			} else if d := dp.Diff(s, want, norm(gcapt.Root), gcmp); d != "" {
+				c.Violate("export/"+gm.String()+"/"+diffClass(d)+typeClass(s, d), "export from a %s source differs from the data present:\n%s\n%s", gm, d, wit())
+			}
+		}
+		c.Eval()
+		var js string
+		if !c.Guard("JSON from "+gm.String(), func() { js, err = nodeutil.WriteJSON(g.Browser().Root()) }) {
+			if err != nil {
+				c.Violate("json/"+gm.String()+"/write-error", "WriteJSON from a %s source: %v\n%s", gm, err, wit())
+			} else {
+				jd := dp.DecodeJSON(s, nil, js, dp.JOpts{})
+				if len(jd.Problems) > 0 {
+					c.Violate("json/"+gm.String()+"/"+strings.SplitN(jd.Problems[0], ":", 2)[0], "WriteJSON from a %s source: %s\njson: %s\n%s", gm, jd.Problems[0], head(js, 1500), wit())
+				} else if d := dp.Diff(s, want, norm(jd.Tree), gcmp); d != "" {
+					c.Violate("json/"+gm.String()+"/"+diffClass(d)+typeClass(s, d), "WriteJSON from a %s source differs from the data present:\n%s\njson: %s\n%s", gm, d, head(js, 1500), wit())
+				}
+			}
+		}
+		if snap, e := g.Snapshot(); e != nil {
+			c.Violate("export/"+gm.String()+"/source-corrupt", "%v\n%s", e, wit())
+		} else if d := dp.Diff(s, want, snap, dp.CmpOpts{IgnoreListOrder: true, EmptyListIsAbsent: true}); d != "" {
+			c.Violate("export/"+gm.String()+"/modified-source", "reading changed the Go values:\n%s\n%s", d, wit())
+		}
 	}
 
 	// (2) JSON in the four writer configurations
